@@ -305,6 +305,12 @@ func (r *Run) abs(rel string) string {
 // given maps the physical name of something inside the pipestance (symlinked parent
 // resolved) to the name under which the pipestance was given to mrp.
 func (r *Run) given(x string) string {
+	if strings.HasPrefix(x, "../") || strings.HasPrefix(x, "./") {
+		// a path relative to the working directory (of mrp and of this process alike)
+		if a, err := filepath.Abs(x); err == nil && strings.HasPrefix(a, r.Root+"/") {
+			x = a
+		}
+	}
 	if r.RealPs != "" && (x == r.RealPs || strings.HasPrefix(x, r.RealPs+"/")) {
 		return r.PsDir + x[len(r.RealPs):]
 	}
@@ -313,7 +319,7 @@ func (r *Run) given(x string) string {
 
 // givenVal applies given to every string of a value.
 func (r *Run) givenVal(v interface{}) interface{} {
-	if r.RealPs == "" {
+	if r.RealPs == "" && !r.Cfg.OutKinds {
 		return v
 	}
 	switch x := v.(type) {
